@@ -1,0 +1,87 @@
+//go:build verif
+
+package counts
+
+// Contracts for package counts (comment-only; compiled only with -tags verif,
+// and then to nothing). Checked by /verif/vcgen. Syntax: /verif/DESIGN.md §3.
+//
+// Top-level postconditions are taken from property C05 ("every reported
+// quantity equals min(true value, capacity)") and C02 ("maxima"), with the
+// true value computed in 128-bit arithmetic (wide), which cannot wrap for
+// 64-bit operands.
+
+//@ spec sat32(x wide) wide = min(x, 4294967295)
+//@ spec sat64(x wide) wide = min(x, 18446744073709551615)
+//@ spec umax32(a, b Count32) Count32 = ite(a >= b, a, b)
+//@ spec umax64(a, b Count64) Count64 = ite(a >= b, a, b)
+//@ spec plus32(a, b Count32) Count32 = Count32(sat32(wide(a) + wide(b)))
+//@ spec plus64(a, b Count64) Count64 = Count64(sat64(wide(a) + wide(b)))
+
+//@ func NewCount32
+//@   pure
+//@   ensures wide(result) == sat32(wide(n))
+
+//@ func (Count32).ToUint64
+//@   pure
+//@   ensures result0 == uint64(n)
+//@   ensures result1 == (n == 4294967295)
+
+//@ func (Count32).Plus
+//@   pure
+//@   ensures wide(result) == sat32(wide(n1) + wide(n2))
+
+//@ func (*Count32).Increment
+//@   modifies *n1
+//@   ensures wide(*n1) == sat32(wide(old(*n1)) + wide(n2))
+
+//@ func (*Count32).AdjustMaxIfNecessary
+//@   modifies *n1
+//@   ensures *n1 == umax32(old(*n1), n2)
+//@   ensures result == (n2 > old(*n1))
+
+//@ func (*Count32).AdjustMaxIfPossible
+//@   modifies *n1
+//@   ensures *n1 == umax32(old(*n1), n2)
+//@   ensures result == (n2 >= old(*n1))
+
+//@ func NewCount64
+//@   pure
+//@   ensures wide(result) == sat64(wide(n))
+
+//@ func (Count64).ToUint64
+//@   pure
+//@   ensures result0 == uint64(n)
+//@   ensures result1 == (n == 18446744073709551615)
+
+//@ func (Count64).Plus
+//@   pure
+//@   ensures wide(result) == sat64(wide(n1) + wide(n2))
+
+//@ func (*Count64).Increment
+//@   modifies *n1
+//@   ensures wide(*n1) == sat64(wide(old(*n1)) + wide(n2))
+
+//@ func (*Count64).AdjustMaxIfNecessary
+//@   modifies *n1
+//@   ensures *n1 == umax64(old(*n1), n2)
+//@   ensures result == (n2 > old(*n1))
+
+// The comment on (*Count64).AdjustMaxIfPossible says ">=", the code implements
+// ">" (DESIGN §8 O3). Only the value clause is relevant to C02; the boolean is
+// stated as what the code does, because it only selects which of several
+// equally large witnesses is cited (C08 permits any).
+//@ func (*Count64).AdjustMaxIfPossible
+//@   modifies *n1
+//@   ensures *n1 == umax64(old(*n1), n2)
+//@   ensures result == (n2 > old(*n1))
+
+//@ lemma plus32_comm: forall a, b Count32 :: plus32(a, b) == plus32(b, a)
+//@ lemma plus32_assoc: forall a, b, c Count32 :: plus32(plus32(a, b), c) == plus32(a, plus32(b, c))
+//@ lemma plus64_comm: forall a, b Count64 :: plus64(a, b) == plus64(b, a)
+//@ lemma plus64_assoc: forall a, b, c Count64 :: plus64(plus64(a, b), c) == plus64(a, plus64(b, c))
+//@ lemma umax32_comm: forall a, b Count32 :: umax32(a, b) == umax32(b, a)
+//@ lemma umax32_assoc: forall a, b, c Count32 :: umax32(umax32(a, b), c) == umax32(a, umax32(b, c))
+//@ lemma umax32_idem: forall a Count32 :: umax32(a, a) == a
+//@ lemma umax64_comm: forall a, b Count64 :: umax64(a, b) == umax64(b, a)
+//@ lemma umax64_assoc: forall a, b, c Count64 :: umax64(umax64(a, b), c) == umax64(a, umax64(b, c))
+//@ lemma umax64_idem: forall a Count64 :: umax64(a, a) == a
